@@ -459,7 +459,22 @@ func rewriteLamport(src, dst string) int {
 	n := 0
 	var bad []string
 	var rewrite func(e *ast.Expr)
+	usesSync := false
 	rewrite = func(e *ast.Expr) {
+		// a mutex (not in the tree as it is, but an obvious way to change it)
+		// becomes a lock that yields to the harness while it is contended
+		// instead of blocking the cooperative scheduler
+		if sel, ok := (*e).(*ast.SelectorExpr); ok && isPkg(sel.X, "sync") {
+			switch sel.Sel.Name {
+			case "Mutex":
+				*e = ast.NewIdent("verifYieldMutex")
+				n++
+			case "RWMutex":
+				*e = ast.NewIdent("verifYieldRWMutex")
+				n++
+			}
+			return
+		}
 		if sel, ok := (*e).(*ast.SelectorExpr); ok && isPkg(sel.X, "atomic") {
 			if to, ok := typeMap[sel.Sel.Name]; ok {
 				*e = ast.NewIdent(to)
@@ -525,9 +540,21 @@ func rewriteLamport(src, dst string) int {
 	}
 	f.Decls = decls
 	f.Imports = nil
+	for _, d := range f.Decls {
+		if gd, ok := d.(*ast.GenDecl); ok && gd.Tok == token.IMPORT {
+			for _, sp := range gd.Specs {
+				if is, ok := sp.(*ast.ImportSpec); ok && strings.Trim(is.Path.Value, `"`) == "sync" {
+					usesSync = true
+				}
+			}
+		}
+	}
 	var buf bytes.Buffer
 	if err := format.Node(&buf, fset, f); err != nil {
 		die("print: %v", err)
+	}
+	if usesSync {
+		buf.WriteString("\nvar _ sync.Once\n")
 	}
 	if err := os.WriteFile(dst, buf.Bytes(), 0o644); err != nil {
 		die("%v", err)
@@ -545,7 +572,11 @@ const lamportShim = `package serf
 // yield to the harness before every atomic operation and otherwise behave
 // exactly like the originals.
 
-import "sync/atomic"
+import (
+	"runtime"
+	"sync"
+	"sync/atomic"
+)
 
 // VerifYieldHook, when set, is called before every atomic operation of
 // LamportClock; the harness uses it to own the interleaving.
@@ -555,6 +586,19 @@ func verifYield() {
 	if h := VerifYieldHook; h != nil {
 		h()
 	}
+}
+
+// VerifLockWaitHook, when set, is called by a goroutine that found a lock of
+// LamportClock taken, before it tries again: to the harness that goroutine is
+// blocked until somebody else has moved.
+var VerifLockWaitHook func()
+
+func verifLockWait() {
+	if h := VerifLockWaitHook; h != nil {
+		h()
+		return
+	}
+	runtime.Gosched()
 }
 
 type verifAtomicUint64 struct{ v atomic.Uint64 }
@@ -567,6 +611,36 @@ func (x *verifAtomicUint64) CompareAndSwap(o, n uint64) bool {
 	verifYield()
 	return x.v.CompareAndSwap(o, n)
 }
+
+// Locks that yield to the harness while contended (a goroutine blocked in a
+// real Lock would stall the cooperative scheduler of the check).
+type verifYieldMutex struct{ mu sync.Mutex }
+
+func (m *verifYieldMutex) Lock() {
+	verifYield()
+	for !m.mu.TryLock() {
+		verifLockWait()
+	}
+}
+func (m *verifYieldMutex) Unlock()       { m.mu.Unlock() }
+func (m *verifYieldMutex) TryLock() bool { return m.mu.TryLock() }
+
+type verifYieldRWMutex struct{ mu sync.RWMutex }
+
+func (m *verifYieldRWMutex) Lock() {
+	verifYield()
+	for !m.mu.TryLock() {
+		verifLockWait()
+	}
+}
+func (m *verifYieldRWMutex) Unlock() { m.mu.Unlock() }
+func (m *verifYieldRWMutex) RLock() {
+	verifYield()
+	for !m.mu.TryRLock() {
+		verifLockWait()
+	}
+}
+func (m *verifYieldRWMutex) RUnlock() { m.mu.RUnlock() }
 
 func verifLoadUint64(p *uint64) uint64        { verifYield(); return atomic.LoadUint64(p) }
 func verifStoreUint64(p *uint64, n uint64)     { verifYield(); atomic.StoreUint64(p, n) }
